@@ -386,7 +386,7 @@ func init() {
 	nd("SymLen", func(m *Machine, th *Thread, fn *ssa.Function, a []Value) (Value, bool) {
 		s := a[0].(SliceV)
 		s.symLen = a[1].(*Term)
-		if s.symLen.op == OpConst {
+		if s.symLen.op == OpConst && s.symLen.val == uint64(len(s.cells)) {
 			s.symLen = nil
 		}
 		return s, true
@@ -928,6 +928,11 @@ func init() {
 		}
 		n := m.concreteInt(a[1], "Shuffle n")
 		swap := a[2]
+		if m.raceOn {
+			// under the race monitor the order of the candidates is irrelevant (every order performs
+			// the same accesses): keep the identity permutation instead of forking n! ways
+			return nil, true
+		}
 		// symbolic permutation: Fisher-Yates with Choice at every step
 		for i := n - 1; i > 0; i-- {
 			j := m.decideN(i+1, "shuffle")
